@@ -96,12 +96,28 @@ void a_que_dtor(a_que *ctx, void (*dtor)(void *))
     ctx->mem_ = 0;
 }
 
+/* the ring sentinel is embedded in the structure: after it has been copied
+   from `from`, re-attach the ring (or the empty ring) to its new owner */
+static void a_que_move_(a_que *ctx, a_que const *from)
+{
+    a_list *const head = &ctx->head_;
+    if (head->next == &from->head_) { a_list_ctor(head); }
+    else
+    {
+        head->next->prev = head;
+        head->prev->next = head;
+    }
+}
+
 void a_que_swap(a_que *lhs, a_que *rhs)
 {
     a_que swap;
+    if (lhs == rhs) { return; }
     swap = *lhs;
     *lhs = *rhs;
     *rhs = swap;
+    a_que_move_(lhs, rhs);
+    a_que_move_(rhs, lhs);
 }
 
 int a_que_drop(a_que *ctx, void (*dtor)(void *))
